@@ -213,6 +213,20 @@ func TestVerifReplay(t *testing.T) {
 									fail("or", fmt.Sprintf("contains(%q, %q) = %v, the union of intersections says %v", r2, v, got, want))
 								}
 							}
+							// three groups: every group of the union counts, not only the first two
+							b3 := bounds[(bi+3)%len(bounds)]
+							r3 := o1.text + b1 + orsep + o2.text + b2 + orsep + "=" + b3
+							for _, v := range valid {
+								evals["or"]++
+								got, ok := contains(r3, v)
+								if !ok {
+									fail("or", fmt.Sprintf("range %q is rejected", r3))
+									continue
+								}
+								if want := verifSat(o1.meaning, cmp(v, b1)) || verifSat(o2.meaning, cmp(v, b2)) || cmp(v, b3) == 0; got != want {
+									fail("or", fmt.Sprintf("contains(%q, %q) = %v, the union of three groups says %v", r3, v, got, want))
+								}
+							}
 						}
 					}
 				}
